@@ -555,6 +555,20 @@ func runExtract(cfg *Config, family string) *Result {
 			p.Case = caseText
 			res.problem(p)
 		}
+		if family == "untar" {
+			b, e1 := parseOutcome("x 0 " + jr.Before)
+			a, e2 := parseOutcome("x 0 " + jr.After)
+			if e1 == nil && e2 == nil {
+				ps := oracleLastEntryWins(c, b, a, jr.Out)
+				if c.Op == "untar" && jr.Out == "ok" {
+					res.count("last-wins-evaluated")
+				}
+				for _, p := range ps {
+					p.Case = caseText
+					res.problem(p)
+				}
+			}
+		}
 		if family == "layer" {
 			b, e1 := parseOutcome("x 0 " + jr.Before)
 			a, e2 := parseOutcome("x 0 " + jr.After)
